@@ -2,6 +2,7 @@ package polling
 
 import (
 	"bytes"
+	"errors"
 	"fmt"
 	"io"
 	"net/http"
@@ -156,10 +157,22 @@ func (t *ServerTransport) handleDataRequest(w http.ResponseWriter, r *http.Reque
 		err     error
 	)
 
+	// The size of the body is not always declared (chunked transfer encoding).
+	// Never read more than the limit.
+	if t.maxHTTPBufferSize > 0 {
+		r.Body = http.MaxBytesReader(w, r.Body, t.maxHTTPBufferSize)
+	}
+
 	// If this is not a JSON-P request
 	if jsonp == "" {
 		packets, err = parser.DecodePayloads(r.Body)
 		if err != nil {
+			var maxBytesError *http.MaxBytesError
+			if errors.As(err, &maxBytesError) {
+				w.WriteHeader(http.StatusRequestEntityTooLarge)
+				t.close(fmt.Errorf("polling: maxHTTPBufferSize (MaxBufferSize) exceeded"))
+				return
+			}
 			w.WriteHeader(http.StatusBadRequest)
 			t.close(err)
 			return
